@@ -4,6 +4,7 @@
 # (evidence goes to a scratch directory; /repo and /verif/evidence are untouched).
 set -u
 PATCH=$(readlink -f "$1"); shift
+[ -f "$PATCH" ] || { echo "NO SUCH PATCH $PATCH"; exit 3; }
 T=$(mktemp -d /tmp/trymut.XXXXXX)
 trap 'rm -rf "$T"' EXIT
 rsync -a --exclude target --exclude .git /repo/ "$T/repo/"
